@@ -9,6 +9,9 @@ Require Import Cadence.Proofs.WriterBase.
 Require Import Cadence.Proofs.WriterInv.
 Require Import Cadence.Proofs.WriterRun.
 Require Import Cadence.Proofs.WriterThms.
+Require Import Cadence.Model.Stats.
+Require Import Cadence.Model.Sock.
+Require Import Cadence.Proofs.SockProofs.
 
 (* every emit/flush returns Ok (with the right count) or the error of an underlying write
    made during that very operation; nothing panics (no arithmetic underflow) *)
@@ -71,6 +74,26 @@ Proof. exact flush_point. Qed.
 Theorem c07_frame_after : forall c e script ops rs s,
   run c e script ops = (rs, s) -> Forall (frame_ok c e) (lg s).
 Proof. exact frame_all. Qed.
+
+(* the same for the real buffered socket sinks as the correspondence check drives them
+   (Sock.sc_buf: emits and flushes while the listener goes away and comes back; [sc_wops] = the
+   writer calls with the listener's state at the time, [wsteps] = the writer's own answers [xs]):
+   an error answer is the error of a send refused during that very call; the lines sent plus
+   the lines still buffered are exactly the fitting metrics whose emit was answered Ok - nothing
+   reported lost is sent later, nothing answered Ok is missing -; the oversized metrics that went
+   out alone are exactly those answered Ok; with the listener there at the end the final drop
+   leaves nothing behind *)
+Theorem c07_scenario : forall co queued ops rs s n up xs,
+  sc_buf queued true (sink_init co []) 0 ops = (rs, s, n, up) ->
+  fst (wsteps (sink_init co []) 0 (sc_wops true ops)) = xs ->
+  let c := match co with Some k => k | None => default_capacity end in
+  let wops := map fst (sc_wops true ops) in
+  (forall i er, nth_error xs i = Some (OErr er) ->
+     exists a, In a (lg s) /\ a_op a = i /\ a_out a = WErr er) /\
+  filter (nzb newline) (sentL (lg s) ++ bids s) = filter (nzb newline) (fit_ids c newline (acked 0 wops xs)) /\
+  sentA (lg s) = big_ids c newline (acked 0 wops xs) /\
+  (up = true -> bids (mlw_drop (with_script s up) n) = []).
+Proof. exact sc_buffered_ledger. Qed.
 
 (* non-vacuity: failures on the automatic flush, a retry after Interrupted, a failed bypass *)
 Example c07_witness :
